@@ -362,9 +362,9 @@ class CPCCARotator(CPCCA):
             comps1 = self.model_data["components1"].sel(mode=slice(1, n_modes))
 
             # Preprocess the data
-            comps1 = self.whitener1.inverse_transform_components(comps1)
-            comps1 = self.pca1.inverse_transform_components(comps1)
             X = self.preprocessor1.transform(X)
+            X = self.pca1.transform(X)
+            X = self.whitener1.transform(X)
 
             # Compute non-rotated scores by projecting the data onto non-rotated components
             projections1 = xr.dot(X, comps1) / scaling
@@ -384,7 +384,7 @@ class CPCCARotator(CPCCA):
                 projections1 = projections1 * self.data["norm1"]
 
             # Unstack the projections
-            projections1 = self.preprocessor1.inverse_transform_scores(projections1)
+            projections1 = self.preprocessor1.inverse_transform_scores_unseen(projections1)
 
             results.append(projections1)
 
@@ -393,9 +393,9 @@ class CPCCARotator(CPCCA):
             comps2 = self.model_data["components2"].sel(mode=slice(1, n_modes))
 
             # Preprocess the data
-            comps2 = self.whitener2.inverse_transform_components(comps2)
-            comps2 = self.pca2.inverse_transform_components(comps2)
             Y = self.preprocessor2.transform(Y)
+            Y = self.pca2.transform(Y)
+            Y = self.whitener2.transform(Y)
 
             # Compute non-rotated scores by project the data onto non-rotated components
             projections2 = xr.dot(Y, comps2) / scaling
@@ -415,7 +415,7 @@ class CPCCARotator(CPCCA):
                 projections2 = projections2 * self.data["norm2"]
 
             # Unstack the projections
-            projections2 = self.preprocessor2.inverse_transform_scores(projections2)
+            projections2 = self.preprocessor2.inverse_transform_scores_unseen(projections2)
 
             results.append(projections2)
 
